@@ -132,15 +132,16 @@ Proof.
       destruct (add_core own e f (pre ++ b1 :: b2 :: post) p) as [[r pr] t3].
       destruct IH as (I1 & I2). rewrite Cnt in I2.
       destruct (is_ret r); (split; [exact I1 | exact I2]).
-    + split.
-      * destruct (choose_replace e b) as [q |] eqn:CR; [| discriminate].
-        destruct (probe e q); [discriminate |].
-        destruct f as [| f']; [lia |]. cbn [add_core].
-        assert (F2 : find_bucket own (pid p) (pre ++ bucket_remove b q :: post) = Some (pre, bucket_remove b q, post)).
-        { rewrite (find_bucket_app _ _ _ _ Pre). cbn [find_bucket].
-          assert (R' : in_range own (bucket_remove b q) (pid p) = true) by exact Rg. rewrite R'.
-          rewrite app_nil_r. reflexivity. }
-        rewrite F2.
-        destruct (bucket_add_after_remove b p q NoId (choose_replace_in _ _ _ CR) Lb) as (b' & ->). discriminate.
-      * intros Cn. rewrite (should_split_true own _ _ p Lc Cn) in SS. discriminate.
+    + assert (Adm : (at_least_as_close own (pre ++ b :: post) p < K)%nat -> False).
+      { intros Cn. rewrite (should_split_true own _ _ p Lc Cn) in SS. discriminate. }
+      destruct (choose_replace e b) as [q |] eqn:CR; [| split; [discriminate | intros Cn; destruct (Adm Cn)]].
+      destruct (probe e q); [split; [discriminate | intros Cn; destruct (Adm Cn)] |].
+      destruct f as [| f']; [lia |]. cbn [add_core].
+      assert (F2 : find_bucket own (pid p) (pre ++ bucket_remove b q :: post) = Some (pre, bucket_remove b q, post)).
+      { rewrite (find_bucket_app _ _ _ _ Pre). cbn [find_bucket].
+        assert (R' : in_range own (bucket_remove b q) (pid p) = true) by exact Rg. rewrite R'.
+        rewrite app_nil_r. reflexivity. }
+      rewrite F2.
+      destruct (bucket_add_after_remove b p q NoId (choose_replace_in _ _ _ CR) Lb) as (b' & ->).
+      split; [discriminate | reflexivity].
 Qed.
